@@ -16,7 +16,8 @@ from common import hx
 import mkpinned
 
 ASSUMPTIONS = ["identity is positional and numeric: renaming parameters, classes or enum members, adding members or "
-               "commands, or changing `blocking` is not drift (DESIGN.md 8.4)"]
+               "commands, or changing `blocking` is not drift (DESIGN.md 8.4); two parameters that exchange their "
+               "positions are drift (pinned values are assigned by pinned name when the name still exists)"]
 
 
 def run(ctx):
@@ -60,9 +61,17 @@ def run(ctx):
                 if len(params) != len(case["values"]):
                     raise ValueError("number of parameters changed: %d -> %d" % (len(case["values"]), len(params)))
                 kw = {}
-                for p, (pname, pv) in zip(params, case["values"].items()):   # positional, names are free
-                    if pv is not None:
-                        kw[p.name] = mkpinned.unprim(p.type, pv)
+                cur_names = {p.name: p for p in params}
+                pinned_names = list(case["values"].keys())
+                for p, (pname, pv) in zip(params, case["values"].items()):
+                    if pv is None:
+                        continue
+                    # a value belongs to the parameter that carries its pinned name when that name still exists
+                    # (so two parameters that swapped places are seen); a renamed parameter keeps its position
+                    tgt = cur_names[pname] if pname in cur_names else p
+                    if pname not in cur_names and p.name in pinned_names:
+                        tgt = p
+                    kw[tgt.name] = mkpinned.unprim(tgt.type, pv)
                 cmd = cls(**kw)
                 got = cmd.to_frame().hl_packet.serialize()[2:]
             except Exception as ex:
